@@ -143,7 +143,8 @@ pub fn run_op(op: Op, registers: &mut Registers, mem: *mut MemoryAreas, length: 
     Op::ReturnFromInterrupt => interp_reti(registers, mem),
 
     Op::Stop => {
-      registers.ip += 1;
+      // STOP is a two-byte instruction (0x10 0x00)
+      registers.ip += length;
       cpu::STATUS_STOP
     },
     Op::Halt => {
